@@ -1469,8 +1469,70 @@ func knownNonNil(v ssa.Value) bool {
 		case "errors.New", "fmt.Errorf", "google.golang.org/grpc/status.Error", "google.golang.org/grpc/status.Errorf":
 			return true
 		}
+	case *ssa.UnOp:
+		// a package-level sentinel error: written once, by the package initialiser, with a fresh error
+		if g, ok := x.X.(*ssa.Global); ok && x.Op == token.MUL {
+			return sentinelGlobal(g)
+		}
 	}
 	return false
+}
+
+var sentinelMemo = map[*ssa.Global]bool{}
+
+// sentinelGlobal: a package-level variable of the module that is stored exactly once in the whole module - in
+// its package's init, with errors.New / fmt.Errorf - and whose address is taken nowhere else.
+func sentinelGlobal(g *ssa.Global) bool {
+	if v, ok := sentinelMemo[g]; ok {
+		return v
+	}
+	sentinelMemo[g] = false
+	if g.Pkg == nil || g.Pkg.Pkg == nil || !strings.HasPrefix(g.Pkg.Pkg.Path(), modPath) {
+		return false
+	}
+	stores, okInit, escapes := 0, false, false
+	var fns []*ssa.Function
+	if globalProg != nil {
+		for f := range globalProg.AllFuncs() {
+			if f.Pkg == g.Pkg || (f.Pkg != nil && strings.HasPrefix(pkgPathOf(f), modPath)) {
+				fns = append(fns, f)
+			}
+		}
+	} else {
+		for _, m := range g.Pkg.Members {
+			if f, ok := m.(*ssa.Function); ok {
+				fns = append(fns, withAnon(f)...)
+			}
+		}
+	}
+	for _, f := range fns {
+		for _, fn := range []*ssa.Function{f} {
+			instrs(fn, func(in ssa.Instruction) {
+				for _, op := range in.Operands(nil) {
+					if *op != ssa.Value(g) {
+						continue
+					}
+					switch x := in.(type) {
+					case *ssa.Store:
+						if x.Addr == ssa.Value(g) {
+							stores++
+							if fn.Name() == "init" && knownNonNil(x.Val) {
+								okInit = true
+							}
+						} else {
+							escapes = true
+						}
+					case *ssa.UnOp:
+					default:
+						escapes = true
+					}
+				}
+			})
+		}
+	}
+	res := stores == 1 && okInit && !escapes
+	sentinelMemo[g] = res
+	return res
 }
 
 func cmpInt(op token.Token, a, b int64) (bool, bool) {
